@@ -236,8 +236,21 @@ ListObj(c, m, kind) ==
       [] kind = 2 -> SetAsSeq(c.pre[m])
       [] kind = 3 -> SetAsSeq({x \in Task : m \in c.pre[x]})
 
+(* Task(id, parent=, children=, successors=, predecessors=): a NEW object (standing in for the isolated *)
+(* task a.t) to which the given relations are applied in the constructor's order                         *)
+Bind(S, F(_)) == UNION {F(x) : x \in S}
+Isolated(c, t) == Holders(c.ch, t) = {} /\ c.ch[t] = <<>> /\ c.pre[t] = {} /\ \A x \in Task : t \notin c.pre[x]
+EffNew(c, a) ==
+    IF ~Isolated(c, a.t) THEN {}
+    ELSE LET s1 == IF a.n # 0 THEN {Attach(c, a.n, a.t)} ELSE {c}
+             s2 == IF (a.key % 2) = 1 THEN Bind(s1, LAMBDA x : EffSetChildren(x, a.t, a.seq)) ELSE s1
+             s3 == IF ((a.key \div 2) % 2) = 1 THEN Bind(s2, LAMBDA x : EffSetSuccs(x, a.t, Ran(a.seq2))) ELSE s2
+             s4 == IF ((a.key \div 4) % 2) = 1 THEN Bind(s3, LAMBDA x : EffSetPreds(x, a.t, Ran(a.seq3))) ELSE s3
+         IN  s4
+
 Effects(c, a) ==
     CASE a.name = "SetParent"      -> EffSetParent(c, a.t, a.n)
+      [] a.name = "New"            -> EffNew(c, a)
       [] a.name = "SetChildren"    -> EffSetChildren(c, a.n, a.seq)
       [] a.name = "SetChildrenOne" -> EffSetChildren(c, a.n, <<a.t>>)
       [] a.name = "SetChildrenFrom" ->       \* link lists are sets in the core: any order of them is admitted
@@ -282,7 +295,7 @@ MustReject(c, a)  == GoodEffects(c, a) = {}      \* every admissible effect woul
 
 (* the tasks an action brings under node n, for the documented cross-WBS refusal *)
 Incoming(c, a) ==
-    CASE a.name \in {"SetParent"}                 -> IF a.n = 0 THEN {} ELSE {a.t}
+    CASE a.name \in {"SetParent", "New"}          -> IF a.n = 0 THEN {} ELSE {a.t}
       [] a.name \in {"ChAppend", "ChInsert", "SetChildrenOne"} -> {a.t}
       [] a.name \in {"SetChildren", "FloorDiv"}   -> Ran(a.seq) \cap Task
       [] a.name = "SetChildrenFrom"               -> Ran(ListObj(c, a.t, a.key))
